@@ -9,10 +9,10 @@ E1_NOTE = ("Bounded: capacities 1-3 (thorough 1-4), key universe capacity+1..2, 
            "(cross-checked by a merge-free sweep and canon-on-replay), slot-relabelling symmetry of the vector-backed caches, the reference model "
            "(validated by silence on the repaired tree and by the seeded-change catalogue).")
 TXT = {
- "C01": "Exhaustive explicit-state search of the real containers (all ten, both thread_safe modes, identity and all-collide hashing, several load factors): from every reachable concrete state every single/range operation is executed on the real code and every value any lookup returns - plus a peek scan of the whole key universe - must carry the write id of that key's latest successful write and the key must not have been undone. Fixpoint per configuration = all histories of that configuration, which is what 'for every finite sequence' needs and unit tests cannot give.",
- "C02": "Same exhaustive search; after every transition size()/empty()/capacity() are compared with the peek scan and the model's set of expired-not-yet-removed keys (lower and upper bound for tlru/utlru, equality elsewhere).",
+ "C01": "Exhaustive explicit-state search of the real containers (all ten, both thread_safe modes, identity and all-collide hashing, several load factors): from every reachable concrete state every single/range operation is executed on the real code and every value any lookup returns - plus a peek scan of the whole key universe - must carry the write id of that key's latest successful write and the key must not have been undone. Fixpoint per configuration = all histories of that configuration, which is what 'for every finite sequence' needs and unit tests cannot give. Plus a configuration sweep (capacity 1..40/100 x load-factor grid x fill/overflow/erase/refill scripts), an equal-values configuration, and one sanitizer pass.",
+ "C02": "Same exhaustive search; after every transition size()/empty()/capacity() are compared with the peek scan and the model's set of expired-not-yet-removed keys (lower and upper bound for tlru/utlru, equality elsewhere); also on the capacity x load-factor sweep.",
  "C03": "Same exhaustive search; the set of live keys lost by each transition (scan before minus scan after at one clock reading) must be empty, or exactly the erased key, or exactly one victim of an insert of a new key into a full cache whose residents are all live.",
- "C04": "Exhaustive search over the four TTL containers with a link-time virtual clock stepped onto, just before and 1 ns around every model deadline; every lookup form and the scan must never return a key whose model deadline (latest successful write + TTL in force) is <= now.",
+ "C04": "Exhaustive search over the four TTL containers with a link-time virtual clock stepped onto, just before and 1 ns around every model deadline; every lookup form and the scan must never return a key whose model deadline (latest successful write + TTL in force) is <= now. Plus concurrent 'clocked' programs (two writers + a clock-tick thread, all schedules): no key served at or after the deadline the implementation recorded for it.",
  "C05": "Same search; every key whose model deadline is still in the future and that was not erased/cleared/legitimately evicted must be returned; deadlines restart on every successful write with the TTL supplied/configured, update_ttl leaves existing deadlines alone.",
  "C06": "Preemption-bounded stateless exploration of real threads on the real container under a serialising scheduler (choice points at every operation invocation and every lock acquisition, found by interposing pthread_mutex_lock): every multiset of 2-3 per-thread programs of 1-2 operations over a per-container concurrency alphabet (single and range forms, clean, dynamically_age, update_ttl, clear, observers; keys forced to collide) from a catalogue of pre-states (empty, half, full, full with an expired / age-stale entry). For every complete schedule the recorded results plus public probes (size/scan, then - on re-execution - eviction order and expiry/aging behaviour) must equal those of some sequential order of the same operations, consistent with per-thread and real-time order, run on the same implementation; a range that is not atomic has no witness order; deadlock is a violation.",
  "C07": "The same exploration under ThreadSanitizer: for every container every unordered pair of public member functions (self pairs, observers and update_ttl included) from every catalogued pre-state, all schedules, plus 2x2 / 3x1 programs; the scheduler translation unit is uninstrumented and hands off by raw futex so it adds no happens-before edges and the detector stays sighted; each report is attributed to the program, schedule and the two access stacks.",
@@ -23,9 +23,9 @@ TXT = {
  "C12": "Exhaustive search of fifo incl. erase of head/middle/tail and iterator-pair overloads; victim must be the resident with the smallest model insertion sequence number.",
  "C13": "Exhaustive search of mru; victim must be the resident with the largest model recency.",
  "C14": "Exhaustive search of lfuda with the virtual clock around the tick boundary (age == tick is not aged, one step more is), several tick/ratio settings; at every aging point the model ages exactly the entries idle strictly longer than the tick; dynamically_age()'s return value, all use counts and the victim are compared.",
- "C15": "Exhaustive search of rr where every evicting insert is branched over 12 equal quantiles of the mt19937 output range (generator reseeded through -fno-access-control); each branch must lose exactly one prior resident, and over the 12 branches every resident must be chosen exactly 12/n times - exhausting the random source instead of sampling it.",
+ "C15": "Exhaustive search of rr where every evicting insert is branched over 12 equal quantiles of the mt19937 output range (generator reseeded through -fno-access-control); each branch must lose exactly one prior resident, and over the 12 branches every resident must be chosen exactly 12/n times - exhausting the random source instead of sampling it; a second eviction drawn from the advanced generator stream must not hit the first one's position for all 12 seeds.",
  "C16": "Exhaustive search of tlru/utlru incl. update_ttl shortening/lengthening; an insert of a new key into a full cache that holds at least one expired resident (size()==capacity() and fewer live keys than capacity) must lose no live key.",
- "C17": "Exhaustive search of the four TTL containers; after clean_expired_values() size() must equal the number of live keys, no live key may be lost, the return value must equal the drop of size(); ut_map/ut_set additionally size()==live right after every call and erase of an expired key must fail.",
+ "C17": "Exhaustive search of the four TTL containers; after clean_expired_values() size() must equal the number of live keys, no live key may be lost, the return value must equal the drop of size(); ut_map/ut_set additionally size()==live right after every call and erase of an expired key must fail. Plus the concurrent clocked programs: clean must not leave an entry resident past its recorded deadline.",
  "C18": "Product (twin instance) search: from every reachable state and every range call, A = state + range call, B = state + the same elements as single calls at the frozen clock; counts / per-element results must agree and A, B are then explored as a pair over the whole alphabet with all public outputs compared until their concrete states coincide (fixpoint) - every continuation, not a sampled one.",
  "C19": "Product search: from every reachable state and every call that turned out to be a peek lookup, a missing lookup, a rejected insert or an erase of an absent key, A = state + call, B = state; the pair is explored to fixpoint with all outputs compared (TTL containers: size()/clean count not compared, update-only insert / erase addressed to a key already expired at the root may differ).",
  "C20": "Product search for utlru/ut_map: from every reachable state A = state + clear(), B = a newly constructed container with the same capacity and the TTL currently configured; size()==0, empty scan, then pair exploration to fixpoint.",
